@@ -1,1 +1,121 @@
-# wait-for graph bookkeeping (filled in below)
+# C12, second half: wait-for graph bookkeeping (forward and reverse edge maps stay mirror images) and victim choice.
+# exec()'d from c12.py.
+GN = 2 if T == 'quick' else 3
+T_EDGES = 'parking_lot::lock_api::RwLock<parking_lot::RawRwLock, std::collections::HashMap<u64, std::collections::HashSet<u64>>>'
+
+
+def mk_graph(st, edge_set, nodes):
+    """WaitForGraph whose forward/reverse maps hold exactly edge_set (pairs of node indexes)"""
+    fwd, rev = {}, {}
+    for (a, b) in edge_set:
+        fwd.setdefault(a, []).append(b)
+        rev.setdefault(b, []).append(a)
+
+    def mk_map(d):
+        keys = [Int(nodes[k], False) for k in d]
+        vals = [Map('u64', None, [Int(nodes[x], False) for x in d[k]], [UNIT] * len(d[k]), is_set=True) for k in d]
+        return Map('u64', 'std::collections::HashSet<u64>', keys, vals)
+    ws = Map('u64', 'u64', [Int(nodes[k], False) for k in fwd], [Int(z3.BitVec(f'ws{k}', 64), False) for k in fwd])
+    pr = Map('u64', 'u32', [], [])
+    g = Struct('WaitForGraph', {F('WaitForGraph', 'edges'): Struct('RwLock', {'data': Cell(val=mk_map(fwd))}),
+                                F('WaitForGraph', 'reverse_edges'): Struct('RwLock', {'data': Cell(val=mk_map(rev))}),
+                                F('WaitForGraph', 'wait_started'): Struct('RwLock', {'data': Cell(val=ws)}),
+                                F('WaitForGraph', 'priorities'): Struct('RwLock', {'data': Cell(val=pr)}),
+                                F('WaitForGraph', 'max_edges_per_tx'): Int(U64(0), False)})
+    st.roots['g'] = g
+    return g
+
+
+def edges_of(st, field):
+    g = st.roots['g']
+    m = g.fields[F('WaitForGraph', field)].fields['data'].val
+    out = []
+    for i, k in enumerate(m.keys):
+        s = m.load(i, None, st)
+        for x in s.keys:
+            out.append((k.v, x.v))
+    return out
+
+
+def map_keys(st, field):
+    g = st.roots['g']
+    m = g.fields[F('WaitForGraph', field)].fields['data'].val
+    return [k.v for k in m.keys]
+
+
+def has(es, a, b):
+    return z3.Or([z3.And(x == a, y == b) for x, y in es]) if es else z3.BoolVal(False)
+
+
+def mirror(fw, rv):
+    return z3.And([has(rv, b, a) for a, b in fw] + [has(fw, b, a) for a, b in rv] + [z3.BoolVal(True)])
+
+
+ck.declare('K7_graph_mirror', f'graphs over {GN} distinct symbolic transactions (every edge subset), one add_wait / remove_wait / remove_transaction with arbitrary arguments',
+           'forward and reverse edge maps remain mirror images; add_wait adds exactly (w,h) unless w == h; remove_wait removes exactly (w,h); nothing else changes')
+ck.declare('K8_removed_tx_gone', 'same', 'after remove_transaction(t) the transaction is neither waiter nor holder of any edge and has no wait-start/priority entry')
+all_edges = [(a, b) for a in range(GN) for b in range(GN) if a != b]
+for r_ in range(len(all_edges) + 1):
+    for es in itertools.combinations(all_edges, r_):
+        for opname in ('add_wait', 'remove_wait', 'remove_transaction'):
+            st = ex.new_state()
+            nodes = [z3.BitVec(f'n{i}', 64) for i in range(GN)]
+            for a, b in itertools.combinations(nodes, 2):
+                st.assume(a != b)
+            mk_graph(st, es, nodes)
+            pre_edges = [(nodes[a], nodes[b]) for a, b in es]
+            w_, h_ = Int(z3.BitVec('aw', 64), False), Int(z3.BitVec('ah', 64), False)
+            if opname == 'add_wait':
+                prio = st.fresh('std::option::Option<u32>', 'prio')
+                args = [ref(st.roots['g']), w_, h_, prio]
+            elif opname == 'remove_wait':
+                args = [ref(st.roots['g']), w_, h_]
+            else:
+                args = [ref(st.roots['g']), w_]
+            res = run(st, 'WaitForGraph::' + opname, args)
+            ck.note_path_problem(res, f'WaitForGraph::{opname} edges={es}')
+            for r in res:
+                wit = lambda m, es=es, opname=opname, nodes=nodes: {'graph_op': opname, 'nodes': [mval(m, n) for n in nodes], 'edges': [list(e) for e in es],
+                                                                   'w': mval(m, w_.v), 'h': mval(m, h_.v)}
+                if r.status == 'panic':
+                    ck.require(ex, 'K7_graph_mirror', r.pc, None, z3.BoolVal(False), wit, lambda m, w: 'graph-panic')
+                    continue
+                if r.status != 'return':
+                    continue
+                fw, rv = edges_of(r.st, 'edges'), edges_of(r.st, 'reverse_edges')
+                cs = [mirror(fw, rv)]
+                if opname == 'add_wait':
+                    exp = lambda a, b: z3.Or(has(pre_edges, a, b), z3.And(a == w_.v, b == h_.v, w_.v != h_.v))
+                elif opname == 'remove_wait':
+                    exp = lambda a, b: z3.And(has(pre_edges, a, b), z3.Not(z3.And(a == w_.v, b == h_.v)))
+                else:
+                    exp = lambda a, b: z3.And(has(pre_edges, a, b), a != w_.v, b != w_.v)
+                # exact edge set: every post edge expected, every expected edge present
+                cs += [exp(a, b) for a, b in fw]
+                cand = pre_edges + [(w_.v, h_.v)]
+                cs += [z3.Implies(exp(a, b), has(fw, a, b)) for a, b in cand]
+                ck.require(ex, 'K7_graph_mirror', r.pc, None, z3.And(cs), wit, lambda m, w: 'graph-' + w['graph_op'])
+                if opname == 'remove_transaction':
+                    gone = [a != w_.v for a, b in fw] + [b != w_.v for a, b in fw] + [k != w_.v for k in map_keys(r.st, 'wait_started')] + \
+                           [k != w_.v for k in map_keys(r.st, 'priorities')] + [k != w_.v for k in map_keys(r.st, 'edges')] + [k != w_.v for k in map_keys(r.st, 'reverse_edges')]
+                    ck.require(ex, 'K8_removed_tx_gone', r.pc, None, z3.And(gone) if gone else z3.BoolVal(True), wit, lambda m, w: 'graph-remnant')
+
+# victim choice: select_victim(c) is a member of c, for every policy and arbitrary wait-start / priority entries
+ck.declare('K5_victim_in_cycle', 'cycles of 1..3 symbolic transaction ids, every policy, 0..2 wait-start and priority entries', 'select_victim(c) is one of the members of c')
+POL = P.variants('VictimSelectionPolicy')
+for n in range(1, 4):
+    st = ex.new_state()
+    det = st.fresh('DeadlockDetector', 'D')
+    st.roots['det'] = det
+    cyc = [Int(z3.BitVec(f'c{i}', 64), False) for i in range(n)]
+    res = run(st, 'DeadlockDetector::select_victim', [ref(det), ref(Seq('u64', list(cyc)))])
+    ck.note_path_problem(res, f'select_victim n={n}')
+    for r in res:
+        wit = lambda m: {'graph_op': 'select_victim', 'cycle': [mval(m, c.v) for c in cyc]}
+        if r.status == 'panic':
+            ck.require(ex, 'K5_victim_in_cycle', r.pc, None, z3.BoolVal(False), wit, lambda m, w: 'victim-panic')
+            continue
+        if r.status != 'return':
+            continue
+        ck.require(ex, 'K5_victim_in_cycle', r.pc, None, z3.Or([r.retval.v == c.v for c in cyc]), wit, lambda m, w: 'victim-outside-cycle')
+ck.functions += ['WaitForGraph::add_wait', 'WaitForGraph::remove_wait', 'WaitForGraph::remove_transaction', 'DeadlockDetector::select_victim']
